@@ -278,6 +278,6 @@ pub fn run(ctx: &Ctx) {
     ctx.set_rule("E2 cube: collection length 0..6 x offset {absent,0..8} x limit {absent,0..8} x reversed x {for, tablerow cols absent/1..4} x {array, literal range, variable-bound range, descending range, single-key object, nil} x attributes as literals / through variables, body prints the item and every forloop/tablerow field, for-else present; second cube: break/continue guarded by forloop.index == k (k 1..5) at three positions of two nested loops (n, m 0..4), guard wrapped in if / capture / case; E1: headers with n <= 40, random nested loop programs. Oracle: reference interpreter. Non-trivial = window differs from the whole collection (offset/limit/reversed) or an interrupt is present; distinct by case.");
     ctx.exhaustive("headers", 7 * 10 * 10 * 2 * 6 * 6 * 2, header_nth, header_oracle);
     ctx.exhaustive("interrupts", 5 * 5 * 2 * 3 * 5 * 3, interrupt_nth, interrupt_oracle);
-    ctx.random("big_headers", ctx.pick(30_000, 400_000), big_header, header_oracle);
-    ctx.random("programs", ctx.pick(40_000, 800_000), rand_strategy, rand_oracle);
+    ctx.random("big_headers", ctx.pick(150_000, 600_000), big_header, header_oracle);
+    ctx.random("programs", ctx.pick(150_000, 1_000_000), rand_strategy, rand_oracle);
 }
